@@ -103,7 +103,8 @@ func buildExt3(s *Spec) px.Type {
 		onceTypes[key] = t
 		return t
 	}
-	return nil
+	// recipe kinds added by ext5.go (declarations in a context of their own)
+	return buildExt5(s)
 }
 
 func buildExtVal(v *VSpec) px.Value {
@@ -587,5 +588,5 @@ func inhab3(t *Spec, alt int) *VSpec {
 	case "DeclOnce":
 		return objInstance(t, alt)
 	}
-	return nil
+	return inhab5(t, alt)
 }
